@@ -166,10 +166,18 @@ func (b *BitStorage) ReadFrom(r io.Reader) (int64, error) {
 	if cap(b.data) >= int(Len) {
 		b.data = b.data[:Len]
 	} else {
-		b.data = make([]uint64, Len)
+		// The declared length comes from the peer: only the first maxPreallocLongs
+		// longs are allocated before any of them has been read.
+		b.data = make([]uint64, min(int(Len), maxPreallocLongs))
 	}
 	var v pk.Long
-	for i := range b.data {
+	for i := 0; i < int(Len); i++ {
+		if i == len(b.data) {
+			// every allocated long has been read: at most double the array
+			grown := make([]uint64, i+min(int(Len)-i, i))
+			copy(grown, b.data)
+			b.data = grown
+		}
 		nn, err := v.ReadFrom(r)
 		n += nn
 		if err != nil {
@@ -179,6 +187,12 @@ func (b *BitStorage) ReadFrom(r io.Reader) (int64, error) {
 	}
 	return n, nil
 }
+
+// maxPreallocLongs is the number of longs BitStorage.ReadFrom allocates for a declared
+// length before any long has been read. Longer arrays grow as their longs arrive, at
+// most doubling each time, so that a few bytes of input declaring 2^31-1 longs fail
+// with an EOF instead of allocating gigabytes.
+const maxPreallocLongs = 1024
 
 func (b *BitStorage) WriteTo(w io.Writer) (int64, error) {
 	if b == nil {
